@@ -13,7 +13,7 @@ LEVEL = "exploration"
 QUICK_SHARDS = 4
 RULE = (
     "Hypothesis value trees (microsecond-resolution times; aware datetimes with a drawn UTC offset; generated-code "
-    "variant default or typing.310; construction route kwargs / setattr / lazy in-place filling / constructor given several members of one oneof group) over the kitchen-sink corpus. Clauses: "
+    "variant default, typing.310 or pydantic_dataclasses; construction route kwargs / setattr / lazy in-place filling / constructor given several members of one oneof group) over the kitchen-sink corpus. Clauses: "
     "json_format.Parse(bp.to_json(), Ref()) succeeds and equals the reference message built from the tree; "
     "Bp().from_json(json_format.MessageToJson(ref)) has the tree's snapshot (also with "
     "preserving_proto_field_name=True, i.e. original proto names as keys). Non-trivial as C04; labelled by the "
@@ -37,7 +37,7 @@ def targets(ctx):
 
     @collecting
     def clauses(out, name, tree, proto_names, variant="default", tz=0, route="kwargs"):
-        cls = (c310 if variant == "typing.310" else c).bp(name)
+        cls = (c310 if variant == "typing.310" else (corpus(opts=("pydantic_dataclasses",)) if variant == "pydantic" else c)).bp(name)
         adapter = adapter_for(tz)
         mi = schema.msg(f"ks.{name}")
         want = norm(schema, mi, tree)
@@ -61,6 +61,14 @@ def targets(ctx):
         got = norm(schema, mi, guard("snapshot", snap_bp, schema, mi, m2))
         if got != want:
             out.append(("ref_json_to_bp", f"betterproto reads reference JSON as {got!r:.300}, want {want!r:.300}; json={rtext:.300}"))
+        # ... and through the class-level entry point (which builds the message with the - under pydantic: validating -
+        # constructor)
+        import json as _json
+
+        m3 = guard("from_dict_ref_classmethod", cls.from_dict, _json.loads(rtext))
+        got = norm(schema, mi, guard("snapshot_classmethod", snap_bp, schema, mi, m3))
+        if got != want:
+            out.append(("ref_json_to_bp_classmethod", f"betterproto (classmethod from_dict) reads reference JSON as {got!r:.300}, want {want!r:.300}; json={rtext:.300}"))
 
     def fails_clause(proto_names, clause, variant="default", tz=0, route="kwargs"):
         def f(mi, tree):
@@ -94,7 +102,7 @@ def targets(ctx):
                         rules.append("rule:" + lab)
                 if fi.json_name != fi.name:
                     rules.append("rule:camel_key")
-        return Eval(fails, nontrivial=json_nontrivial(schema, mi, tree), labels=cm.labels_for(schema, mi, tree) + sorted(set(rules)) + [f"route:{route}"])
+        return Eval(fails, nontrivial=json_nontrivial(schema, mi, tree), labels=cm.labels_for(schema, mi, tree) + sorted(set(rules)) + [f"route:{route}", f"variant:{variant}"])
 
     base = cm.msg_tree_strategy(c)
 
@@ -102,9 +110,11 @@ def targets(ctx):
     def strat(draw):
         case = dict(draw(base))
         case["proto_names"] = draw(st.booleans())
-        case["variant"] = draw(st.sampled_from(["default", "default", "typing.310"]))
+        case["variant"] = draw(st.sampled_from(["default", "default", "typing.310", "pydantic"]))
         case["tz"] = draw(st.sampled_from([0, 0, 330, -480, 60, 840]))
         case["route"] = draw(st.sampled_from(["kwargs", "kwargs", "kwargs", "setattr", "lazy", "kwargs_multi", "kwargs_multi"]))
+        if case["variant"] == "pydantic" and case["route"] == "kwargs_multi":
+            case["route"] = "kwargs"  # (the pydantic classes validate at most one member per group in the constructor)
         return case
 
     def strip_enums(schema_, mi_, tree_):
